@@ -56,6 +56,12 @@ pub enum Go {
     Stop,
 }
 
+thread_local! {
+    /// When set, the sending drivers first initialise the guard with this value and then assign the message to be
+    /// sent THROUGH THE GUARD (`DerefMut` + `assign_in_place`): what goes out must be the final content.
+    pub static EDIT_AFTER_INIT: std::cell::RefCell<Option<Value>> = const { std::cell::RefCell::new(None) };
+}
+
 pub type Fut<'a> = Pin<Box<dyn Future<Output = ()> + 'a>>;
 
 pub trait IoShape: Send + Sync {
@@ -75,6 +81,14 @@ impl<M: ?Sized> IoShapeOf<M> {
     pub fn new(id: &'static str) -> Self {
         IoShapeOf { id, _p: PhantomData }
     }
+}
+
+fn edit_on() -> bool {
+    EDIT_AFTER_INIT.with(|e| e.borrow().is_some())
+}
+/// the value the guard is initialised with when the edit-after-init pass is on (None: the message itself)
+fn init_guard_value(_msg: &Value) -> Option<Value> {
+    EDIT_AFTER_INIT.with(|e| e.borrow().clone())
 }
 
 fn buf<M: Node + ?Sized, P>(pipe: P, cap: CapSpec) -> IoBuffer<P> {
@@ -114,12 +128,18 @@ impl<M: Node + ?Sized + 'static> IoShape for IoShapeOf<M> {
         while i < msgs.len() {
             let out = match sender.alloc() {
                 Err(e) => SendOut::Io(e.kind()),
-                Ok(g) => match g.new_in_place(ByValue(&msgs[i], kind)) {
+                Ok(g) => match { let first = init_guard_value(&msgs[i]).unwrap_or_else(|| msgs[i].clone()); g.new_in_place(ByValue(&first, kind)) } {
                     Err(e) => SendOut::Emplace(format!("{:?}", e.kind)),
-                    Ok(g) => match g.send() {
-                        Ok(()) => SendOut::Ok,
-                        Err(e) => SendOut::Io(e.kind()),
-                    },
+                    Ok(mut g) => {
+                        if edit_on() {
+                            // the message proper is written through the initialised guard
+                            let _ = (*g).apply(&[], &refmodel::ops::Op::Assign(msgs[i].clone(), kind));
+                        }
+                        match g.send() {
+                            Ok(()) => SendOut::Ok,
+                            Err(e) => SendOut::Io(e.kind()),
+                        }
+                    }
                 },
             };
             let ok = out == SendOut::Ok;
@@ -165,12 +185,17 @@ impl<M: Node + ?Sized + 'static> IoShape for IoShapeOf<M> {
             while i < msgs.len() {
                 let out = match sender.alloc().await {
                     Err(e) => SendOut::Io(e.kind()),
-                    Ok(g) => match g.new_in_place(ByValue(&msgs[i], kind)) {
+                    Ok(g) => match { let first = init_guard_value(&msgs[i]).unwrap_or_else(|| msgs[i].clone()); g.new_in_place(ByValue(&first, kind)) } {
                         Err(e) => SendOut::Emplace(format!("{:?}", e.kind)),
-                        Ok(g) => match g.send().await {
-                            Ok(()) => SendOut::Ok,
-                            Err(e) => SendOut::Io(e.kind()),
-                        },
+                        Ok(mut g) => {
+                            if edit_on() {
+                                let _ = (*g).apply(&[], &refmodel::ops::Op::Assign(msgs[i].clone(), kind));
+                            }
+                            match g.send().await {
+                                Ok(()) => SendOut::Ok,
+                                Err(e) => SendOut::Io(e.kind()),
+                            }
+                        }
                     },
                 };
                 let ok = out == SendOut::Ok;
